@@ -23,7 +23,7 @@ PROPERTY = "C09"
 MANIFEST_INFO = {
     "engine": "B",
     "design_ref": "DESIGN.md section 5, C09",
-    "technique": "exhaustive enumeration of well-formed TestResult histories (0-3 tests x six outcomes x exc_info / reason / details forms, run- and test-level tags, explicit or implicit times) x detail payload shapes (0-2 details, 10 chunk lists incl. empty chunks, 4 content types with parameters, non-ASCII names and reasons), each replayed on a fresh real ExtendedToStreamDecorator -> {stream recorder, StreamToExtendedDecorator -> extended recorder} pipeline; stream well-formedness and per-test round-trip equality oracles",
+    "technique": "exhaustive enumeration of well-formed TestResult histories (0-3 tests x six outcomes x exc_info / reason / details forms, run- and test-level tags, explicit or implicit times) x detail payload shapes (0-2 details, 11 chunk lists (one cutting a UTF-8 sequence in two) incl. empty chunks, 4 content types with parameters, non-ASCII names and reasons), each replayed on a fresh real ExtendedToStreamDecorator -> {stream recorder, StreamToExtendedDecorator -> extended recorder} pipeline; stream well-formedness and per-test round-trip equality oracles",
     "level_text": "Every single-test history over all ~9000 (outcome, form, payload) variants x 4 tag/time settings, every two-test history over a 60-variant alphabet (thorough: 3 tests over 14 variants, 2 tests over 120), is pushed through the real converters. Between them the stream must show per test one 'inprogress', then each detail's chunks in order with eof exactly on its last chunk, then exactly one final status; at the far end each test must reappear as one startTest/outcome/stopTest bracket with the same id, the mapped outcome (error -> failure), the tags current at its outcome, the supplied times, the skip reason and every non-empty detail with identical bytes and content type.",
     "level_note": "Content types are within the C16 round-trip envelope; details consisting only of empty chunks need not reappear; without explicit time() only the presence of timestamps is checked.",
 }
@@ -36,7 +36,7 @@ def ts(n):
 
 
 # (the last two repeat the very same bytes object: b"" and one-byte bytes are interned by CPython)
-CHUNKS = ([], [b""], [b"a"], [b"a", b""], [b"", b"a"], [b"a", b"bc"], [b"\xff\xfe"], [b"", b"", b"x"], [b"a", b"b", b"a"], [b"", b"x", b""])
+CHUNKS = ([], [b""], [b"a"], [b"a", b""], [b"", b"a"], [b"a", b"bc"], [b"\xff\xfe"], [b"", b"", b"x"], [b"a", b"b", b"a"], [b"", b"x", b""], [b"a\xc3", b"\xa9b"])
 TYPES = (
     ContentType("text", "plain", {"charset": "utf8"}),
     ContentType("application", "octet-stream"),
@@ -67,7 +67,7 @@ def make_test(kind, n):
 
 def payload_alphabet():
     # (bytes that are not valid UTF-8 are not declared as utf8 text)
-    return [(ci, ti) for ci in range(len(CHUNKS)) for ti in range(len(TYPES)) if not (ci == 6 and ti in (0, 3))]
+    return [(ci, ti) for ci in range(len(CHUNKS)) for ti in range(len(TYPES)) if not (ci == 6 and ti in (0, 3)) and not (ci == 10 and ti not in (0, 3))]
 
 
 def variants_full():
